@@ -35,6 +35,7 @@ import (
 //	       1 = wrgl commit + wrgl export in-process (RootCmd) in a temporary repository
 //	       2 = rows handed to a sorter with AddRow, then Inserter.IngestTableFromSorter
 //	           (the producer shared by merge and doctor re-ingest; no CSV involved)
+//	       4, 5, 6 = C03 only (merge result, doctor re-ingest, receipt over the wire), see c03.go
 //	  columns/pknames = node of cells; rows = node of rows: the CSV AFTER parsing
 //	  (Run re-serialises them with c01CSV and checks that encoding/csv parses them back)
 //	  arrival = scheduling keys used by the model only; workers/delimiter used by Go only;
@@ -166,6 +167,7 @@ type c01Case struct {
 	Workers int
 	Delim   rune
 	Deps    [][]int // forced schedule: block k is completed only after the blocks Deps[k] (Go only)
+	Aux     *xt.T   // producer-specific extra input of the C03 kinds 4 and 6 (Go only), eighth element of the case
 }
 
 func c01Deps(deps [][]int) *xt.T {
@@ -188,8 +190,12 @@ func c01DecodeDeps(t *xt.T) [][]int {
 }
 
 func c01Tree(k c01Case) *xt.T {
-	return xt.N(xt.LI(k.Kind), xt.Strs(k.Columns), xt.Strs(k.PKNames), c19Rows(k.Rows), xt.L(k.RunSize),
+	t := xt.N(xt.LI(k.Kind), xt.Strs(k.Columns), xt.Strs(k.PKNames), c19Rows(k.Rows), xt.L(k.RunSize),
 		xt.Ints(k.Arrival), xt.N(xt.LI(k.Workers), xt.LI(int(k.Delim)), c01Deps(k.Deps)))
+	if k.Aux != nil {
+		t.Add(k.Aux)
+	}
+	return t
 }
 
 func c01Strs(t *xt.T) []string {
@@ -208,6 +214,9 @@ func c01Decode(c *xt.T) c01Case {
 	}
 	if len(c.Kids[6].Kids) > 2 {
 		k.Deps = c01DecodeDeps(c.Kids[6].Kids[2])
+	}
+	if len(c.Kids) > 7 {
+		k.Aux = c.Kids[7]
 	}
 	return k
 }
@@ -276,6 +285,7 @@ type c01Result struct {
 	Order     []int  // forced schedule: offsets of the blocks in the order they were completed
 	GateLate  bool   // forced schedule: a hold timed out (too few workers)
 	SchedDiff string // non-empty: the multi-worker table differs from the one-worker table
+	Note      string // producer-specific finding (C03 kind 6)
 	Hang      bool   // the in-process CLI command never returned
 	Err       error
 	Sum       []byte
@@ -511,6 +521,17 @@ func c01Flatten(rows [][]string) []string {
 func c01IngestOnce(ctx *Ctx, k c01Case) *c01Result {
 	res := &c01Result{Cleanup: func() {}}
 	var text []byte
+	if k.Kind == 4 || k.Kind == 5 {
+		// C03 producers that involve no CSV of the case rows: merge result, doctor re-ingest
+		c19WithTmp(ctx, func(dir string) {
+			if k.Kind == 4 {
+				c03ProduceMerge(k, res)
+			} else {
+				c03ProduceDoctor(k, res)
+			}
+		})
+		return res
+	}
 	if k.Kind != 2 {
 		records := append([][]string{k.Columns}, k.Rows...)
 		text = c01CSV(records, k.Delim)
@@ -553,7 +574,7 @@ func c01IngestOnce(ctx *Ctx, k c01Case) *c01Result {
 			}
 			return
 		}
-		if k.Kind == 0 {
+		if k.Kind == 0 || k.Kind == 6 {
 			db := k.Store
 			if db == nil {
 				db = c01NewStore()
@@ -571,6 +592,10 @@ func c01IngestOnce(ctx *Ctx, k c01Case) *c01Result {
 				ingest.WithNumWorkers(k.Workers))
 			res.Err = err
 			res.Sum = sum
+			if err == nil && k.Kind == 6 {
+				c03Receive(k, db, sum, res)
+				return
+			}
 			if err == nil {
 				c01ReadBack(db, sum, res)
 			}
@@ -1143,30 +1168,30 @@ func genC01(ctx *Ctx) []Case {
 	g := &c01Gen{ctx: ctx, huge: uint64(1) << 40}
 	ab := []string{"a", "b"}
 	// ---- witnesses ----
-	g.add("witness", true, c01Case{nil, 0, ab, []string{"a"}, [][]string{{"", "1"}, {"x", "2"}}, g.huge, nil, 1, ',', nil})    // 8d128f5
-	g.add("witness", true, c01Case{nil, 0, ab, []string{"a"}, [][]string{{"", "1"}, {"x", "2"}}, 1, []int{1, 0}, 4, ';', nil}) // spilled
+	g.add("witness", true, c01Case{nil, 0, ab, []string{"a"}, [][]string{{"", "1"}, {"x", "2"}}, g.huge, nil, 1, ',', nil, nil})    // 8d128f5
+	g.add("witness", true, c01Case{nil, 0, ab, []string{"a"}, [][]string{{"", "1"}, {"x", "2"}}, 1, []int{1, 0}, 4, ';', nil, nil}) // spilled
 	big := func(n int) string { return strings.Repeat("z", n) }
 	g.add("witness", true, c01Case{nil, 0, []string{"a", "b", "c", "d"}, []string{"a"},
-		[][]string{{"k", big(30000), big(30000), big(30000)}, {"j", "1", "2", "3"}}, g.huge, nil, 1, ',', nil}) // eebb087 row > 64KiB
-	g.add("witness", true, c01Case{nil, 0, ab, []string{"a"}, [][]string{{"k", big(65535)}, {"j", "1"}}, 100, nil, 3, ',', nil})
-	g.add("witness", true, c01Case{nil, 0, ab, []string{"a"}, [][]string{{"k", big(65536)}, {"j", "1"}}, g.huge, nil, 1, ',', nil}) // refused
-	g.add("witness", true, c01Case{nil, 0, ab, []string{"a"}, [][]string{{"j", "1"}, {"k", big(70000)}}, 1, nil, 4, ',', nil})      // 9a70dee
-	g.add("witness", true, c01Case{nil, 0, ab, []string{"nope"}, [][]string{{"j", "1"}}, 1, nil, 1, ',', nil})                      // unknown key
-	g.add("witness", true, c01Case{nil, 0, []string{"a"}, []string{"a"}, [][]string{{""}, {"x"}}, g.huge, nil, 1, ',', nil})
-	g.add("witness", true, c01Case{nil, 0, []string{"unnamed__1", "", "k"}, []string{"k"}, [][]string{{"1", "2", "b"}, {"3", "4", "a"}}, g.huge, nil, 1, ',', nil}) // renamed to unnamed__2
-	g.add("witness", true, c01Case{nil, 0, ab, []string{"a", "a"}, [][]string{{"2", "x"}, {"1", "y"}, {"2", "z"}}, 1, nil, 4, ',', nil})                            // e2f1265 key column named twice: refused
-	g.add("witness", true, c01Case{nil, 2, ab, []string{"b", "a", "b"}, [][]string{{"2", "x"}, {"1", "y"}}, 4096, nil, 1, ',', nil})
-	g.add("witness", true, c01Case{nil, 0, []string{"a", "a", "b"}, []string{"a"}, [][]string{{"1", "2", "x"}, {"1", "1", "y"}, {"1", "2", "z"}}, 1, nil, 1, ',', nil}) // KeyIndices takes every matching column
-	g.add("witness", true, c01Case{nil, 0, []string{"", "k", ""}, []string{"k"}, [][]string{{"1", "b", "2"}, {"3", "a", "4"}}, 1, nil, 1, ',', nil})                    // two empty names
-	g.add("witness", true, c01Case{nil, 1, []string{"a"}, []string{"a"}, [][]string{{""}, {"x"}}, 4096, nil, 1, ',', nil})                                              // known finding (export)
-	g.add("witness", true, c01Case{nil, 1, ab, []string{"a"}, [][]string{{"", ""}, {"x", "y"}}, 4096, nil, 1, ',', nil})
+		[][]string{{"k", big(30000), big(30000), big(30000)}, {"j", "1", "2", "3"}}, g.huge, nil, 1, ',', nil, nil}) // eebb087 row > 64KiB
+	g.add("witness", true, c01Case{nil, 0, ab, []string{"a"}, [][]string{{"k", big(65535)}, {"j", "1"}}, 100, nil, 3, ',', nil, nil})
+	g.add("witness", true, c01Case{nil, 0, ab, []string{"a"}, [][]string{{"k", big(65536)}, {"j", "1"}}, g.huge, nil, 1, ',', nil, nil}) // refused
+	g.add("witness", true, c01Case{nil, 0, ab, []string{"a"}, [][]string{{"j", "1"}, {"k", big(70000)}}, 1, nil, 4, ',', nil, nil})      // 9a70dee
+	g.add("witness", true, c01Case{nil, 0, ab, []string{"nope"}, [][]string{{"j", "1"}}, 1, nil, 1, ',', nil, nil})                      // unknown key
+	g.add("witness", true, c01Case{nil, 0, []string{"a"}, []string{"a"}, [][]string{{""}, {"x"}}, g.huge, nil, 1, ',', nil, nil})
+	g.add("witness", true, c01Case{nil, 0, []string{"unnamed__1", "", "k"}, []string{"k"}, [][]string{{"1", "2", "b"}, {"3", "4", "a"}}, g.huge, nil, 1, ',', nil, nil}) // renamed to unnamed__2
+	g.add("witness", true, c01Case{nil, 0, ab, []string{"a", "a"}, [][]string{{"2", "x"}, {"1", "y"}, {"2", "z"}}, 1, nil, 4, ',', nil, nil})                            // e2f1265 key column named twice: refused
+	g.add("witness", true, c01Case{nil, 2, ab, []string{"b", "a", "b"}, [][]string{{"2", "x"}, {"1", "y"}}, 4096, nil, 1, ',', nil, nil})
+	g.add("witness", true, c01Case{nil, 0, []string{"a", "a", "b"}, []string{"a"}, [][]string{{"1", "2", "x"}, {"1", "1", "y"}, {"1", "2", "z"}}, 1, nil, 1, ',', nil, nil}) // KeyIndices takes every matching column
+	g.add("witness", true, c01Case{nil, 0, []string{"", "k", ""}, []string{"k"}, [][]string{{"1", "b", "2"}, {"3", "a", "4"}}, 1, nil, 1, ',', nil, nil})                    // two empty names
+	g.add("witness", true, c01Case{nil, 1, []string{"a"}, []string{"a"}, [][]string{{""}, {"x"}}, 4096, nil, 1, ',', nil, nil})                                              // known finding (export)
+	g.add("witness", true, c01Case{nil, 1, ab, []string{"a"}, [][]string{{"", ""}, {"x", "y"}}, 4096, nil, 1, ',', nil, nil})
 	{
 		var rows [][]string
 		for i := 0; i < 300; i++ {
 			rows = append(rows, []string{fmt.Sprintf("%04d", i), "v"})
 		}
 		rows = append(rows, []string{"0254", "dup"})
-		g.add("witness", true, c01Case{nil, 0, ab, []string{"a"}, rows, g.huge, []int{1, 0}, 4, ',', nil}) // fa79010
+		g.add("witness", true, c01Case{nil, 0, ab, []string{"a"}, rows, g.huge, []int{1, 0}, 4, ',', nil, nil}) // fa79010
 	}
 	// ---- exhaustive tiny scope: cells {"", a, b}; every key choice; run sizes 1 / ~2 rows / none ----
 	vals := []string{"", "a", "b"}
@@ -1194,7 +1219,7 @@ func genC01(ctx *Ctx) []Case {
 			for pi, pk := range pks {
 				for ri, rs := range []uint64{1, 17, g.huge} {
 					g.add("exh", len(prefix) >= 2, c01Case{nil, 0, c01ColNames(ncols), pk, prefix, rs, []int{ri, pi % 2},
-						c01Workers[(pi+ri)%len(c01Workers)], ',', nil})
+						c01Workers[(pi+ri)%len(c01Workers)], ',', nil, nil})
 					ctx.Count("exhaustive_cases")
 				}
 			}
